@@ -167,6 +167,10 @@ BSP = '(*github.com/fredericlemoine/bitset.BitSet).'
 B = z3.BoolSort()
 
 
+def bs_keys():
+    return _bs_keys()
+
+
 def _bs_keys():
     return ('ghost', 'bs_bits', z3.ArraySort(I, z3.ArraySort(I, B)), BS), ('ghost', 'bs_len', z3.ArraySort(I, I), BS)
 
